@@ -126,7 +126,19 @@ fn c16_step(
             return;
         }
     };
-    sim.log(format!("{} {:#x} -> {:?}", what, h, now_st));
+    if is_tx && now_st == FetchSt::Fetched {
+        let places: Vec<u64> = sim
+            .world
+            .tx_locs
+            .get(h)
+            .map(|l| l.iter().map(|(id, _)| sim.world.blocks[*id].number()).collect())
+            .unwrap_or_default();
+        let bh = v["data"]["tx_status"]["block_hash"].as_str().unwrap_or("").to_string();
+        let named = sim.world.blocks.iter().find(|b| format!("{:#x}", b.hash()) == bh).map(|b| b.number());
+        sim.log(format!("{} {:#x} -> Fetched, in block #{:?} {} (really in blocks numbered {:?})", what, h, named, bh, places));
+    } else {
+        sim.log(format!("{} {:#x} -> {:?}", what, h, now_st));
+    }
     let key = (is_tx, h.as_slice().to_vec());
     let inc = sim.incarnation;
     let tip_number = sim
@@ -137,10 +149,18 @@ fn c16_step(
     let prev = ck.c16.st.get(&key).cloned();
     let mut findings: Vec<(&str, String)> = Vec::new();
     // where is it really?
+    // with nobody connected: the branch the plan calls the main one
+    let planned_main = sim
+        .plan
+        .flags
+        .iter()
+        .find_map(|f| f.strip_prefix("main=").and_then(|v| v.parse::<usize>().ok()))
+        .filter(|b| *b < sim.world.branches.len())
+        .unwrap_or(0);
     let main = sim
         .best_connected_view()
         .map(|v| v.branch)
-        .unwrap_or(0);
+        .unwrap_or(planned_main);
     let real_number: Option<u64> = if is_tx {
         sim.world.tx_locs.get(h).and_then(|locs| {
             locs.iter().find_map(|(id, _)| {
@@ -224,10 +244,7 @@ fn c16_step(
                     })
                     .unwrap_or(false);
                 if !ok {
-                    findings.push((
-                        "committed_transaction_paired_with_a_block_that_does_not_contain_it",
-                        format!("fetch_transaction {:#x} reports block {}", h, bh),
-                    ));
+                    findings.push(c16_pairing_clause(ck, sim, h, bh, "fetch_transaction"));
                 }
             }
         } else if !sim.world.by_hash.contains_key(h) {
@@ -253,7 +270,35 @@ pub fn c16_on_fetch_header(ck: &mut Checker, sim: &mut Sim, h: &packed::Byte32, 
 pub fn c16_on_fetch_tx(ck: &mut Checker, sim: &mut Sim, h: &packed::Byte32, r: Option<Result<Value, Value>>) {
     c16_step(ck, sim, true, h, r);
 }
-pub fn c16_on_get_tx(_ck: &mut Checker, sim: &mut Sim, h: &packed::Byte32, r: Option<Result<Value, Value>>) {
+/// A wrong (transaction, block) pair: the recorded finding is about entries of an abandoned
+/// branch that a rollback keeps; a transaction whose place on the client's present chain was
+/// named by a proven answer the client consumed since is another matter.
+fn c16_pairing_clause(ck: &mut Checker, sim: &Sim, h: &packed::Byte32, bh: &str, method: &str) -> (&'static str, String) {
+    // abandoned blocks indexed after the switch (recorded C04 findings) can undo the answer's work
+    let c04_reported = sim.violations.iter().any(|v| {
+        v.property == "C04" && !v.clause.starts_with("fork_unnoticed") && !v.clause.starts_with("fork_switch_without_rollback")
+    });
+    match crate::oracle2::c16_proven_block(ck, sim, h) {
+        Some((proven, n)) if proven != bh && !c04_reported => (
+            "proven_fetch_answer_left_the_transaction_paired_with_another_block",
+            format!("{} {:#x} reports block {} although the consumed transactions proof named block #{} {} of the present chain", method, h, bh, n, proven),
+        ),
+        _ => {
+            let places: Vec<u64> = sim
+                .world
+                .tx_locs
+                .get(h)
+                .map(|l| l.iter().map(|(id, _)| sim.world.blocks[*id].number()).collect())
+                .unwrap_or_default();
+            (
+                "committed_transaction_paired_with_a_block_that_does_not_contain_it",
+                format!("{} {:#x} reports block {} (the transaction is in blocks numbered {:?})", method, h, bh, places),
+            )
+        }
+    }
+}
+
+pub fn c16_on_get_tx(ck: &mut Checker, sim: &mut Sim, h: &packed::Byte32, r: Option<Result<Value, Value>>) {
     // get_transaction: committed + block hash must be truthful
     if let Some(Ok(v)) = r {
         if v["tx_status"]["status"].as_str() == Some("committed") {
@@ -266,11 +311,8 @@ pub fn c16_on_get_tx(_ck: &mut Checker, sim: &mut Sim, h: &packed::Byte32, r: Op
                 .unwrap_or(false);
             sim.stat("probe.c16.get_transaction_committed");
             if !ok {
-                sim.violate(
-                    "C16",
-                    "committed_transaction_paired_with_a_block_that_does_not_contain_it",
-                    format!("get_transaction {:#x} reports block {}", h, bh),
-                );
+                let (clause, detail) = c16_pairing_clause(ck, sim, h, &bh, "get_transaction");
+                sim.violate("C16", clause, detail);
             }
         }
     }
